@@ -44,6 +44,15 @@ def rejected_calls(w, rng):
         out.append('mk $x D %s %s %s %s' % (b.slot, S('fresh-df3'), S('t'), lst(['%s:x:Double' % S('c'), '%s:x:Int32' % S('d'), '%s:x:Double' % S('c')])))
         out.append('mk $x D %s %s %s %s' % (b.slot, S('fresh-df4'), S('t'), lst(['%s:x:Double' % S('a'), '%s:x:Int32' % S('b'), '%s:x:String' % S('c'), '%s:x:Int32' % S('a')])))
         out.append('mk $x D %s %s %s %s' % (b.slot, S('fresh-df2'), S('t'), lst(['%s:x:Opaque' % S('c')])))
+    # the same below sources and sections (Source::createSource, Section::createSection have front ends of their own)
+    for par in (w.alive('O')[:3] + w.alive('S')[:3]):
+        kind = par.kind
+        ex = w.alive(kind, parent=par.slot)
+        if ex:
+            out.append('mk $x %s %s %s %s' % (kind, par.slot, S(ex[0].name), S('other type')))
+        for bad in BAD_NAMES:
+            out.append('mk $x %s %s %s %s' % (kind, par.slot, S(bad), S('t')))
+        out.append('mk $x %s %s %s %s' % (kind, par.slot, S('fresh-nested-%s' % kind), S('')))
     # foreign-block and missing targets
     if len(blocks) >= 2:
         b1, b2 = blocks[0], blocks[1]
@@ -103,6 +112,11 @@ def rejected_calls(w, rng):
         out.append('sdim %s 1 interval %s' % (a.slot, f64(0.0)))
         out.append('sdim %s 1 ticks %s' % (a.slot, lst([f64(2.0), f64(1.0)])))
         out.append('sdim %s 1 unit %s' % (a.slot, S('parsec')))
+        # composite units: SI, but refused where only atomic units are supported (the setters of the dimensions, the units of a tag)
+        for cu in ('m/s', 'N*m', 'mA*s'):
+            out.append('adim %s range %s %s %s' % (a.slot, lst([f64(1.0), f64(2.0)]), S('lbl'), S(cu)))
+            out.append('adim %s sampled %s %s %s ~' % (a.slot, f64(1.0), S('lbl'), S(cu)))
+            out.append('sdim %s 1 unit %s' % (a.slot, S(cu)))
         out.append('da_setext %s [1,1,1,1,1]' % a.slot)
     # data of the wrong class (numbers for a string array, strings for a numeric one), whole and appended, larger and smaller than
     # the array: refused after the front end has worked out the new extent
@@ -112,8 +126,16 @@ def rejected_calls(w, rng):
             out += ['da_fill %s %s' % (a.slot, nums), 'da_append %s %s' % (a.slot, nums)]
         else:
             out += ['da_fills %s %s' % (a.slot, strs), 'da_appends %s %s' % (a.slot, strs)]
+    for s_ in w.alive('S')[:2]:
+        # createProperty(name, values) with values of mixed types — also kinds that convert into one another
+        for k, vals in enumerate((['Double:' + f64(1.0), 'Double:' + f64(2.0), 'Int32:3'], ['Int32:1', 'Int64:2'], ['UInt32:1', 'UInt64:2'],
+                                  ['String:' + S('a'), 'Int32:1'], ['Bool:1', 'Int32:0'])):
+            out.append('mkpv $x %s %s %s' % (s_.slot, S('fresh-mixed-%d' % k), lst(vals)))
+    for t in w.alive(['T', 'M'])[:2]:
+        out.append('set %s units %s' % (t.slot, lst([S('m/s')])))
     for p in w.alive('P')[:3]:
         out.append('pvalues %s %s' % (p.slot, lst(['Double:' + f64(5.0), 'String:' + S('x')])))
+        out.append('pvalues %s %s' % (p.slot, lst(['Int32:1', 'Int64:2'])))
         out.append('pvalues %s %s' % (p.slot, lst(['String:' + S('x'), 'String:' + S('y'), 'Int32:3'])))
     rng.shuffle(out)
     return out
@@ -140,7 +162,7 @@ def history(rng, tier):
     for p in w.alive('P')[:3]:
         w.emit('pvalues %s %s' % (p.slot, '[]'))
     calls = rejected_calls(w, rng)
-    calls = calls[: (40 if tier == 'quick' else 120)]
+    calls = calls[: (55 if tier == 'quick' else 150)]
     for c in calls:
         w.emit('dump')
         w.emit(c)
